@@ -55,7 +55,8 @@ ASSUMPTIONS = [
     "for reset(): 'stateless' programs are acyclic emit graphs without cancel/crash actions; entity logs are harness state",
 ]
 EXPECTED_PROBES = ["probe.step_completed", "probe.breakpoint_hit", "probe.pause_from_hook", "probe.reset_rerun",
-                   "probe.step_hit_end_of_run", "probe.non_one_shot_refired", "probe.peek_or_find"]
+                   "probe.step_hit_end_of_run", "probe.non_one_shot_refired", "probe.peek_or_find",
+                   "probe.reset_with_source", "probe.metric_breakpoint_on_zero"]
 SHRINK_SKIP = ("n_entities", "n_kinds")
 
 
@@ -67,6 +68,24 @@ def gen(rng, tier):
     else:
         prog = gen_program(rng)
     prog["stateless"] = stateless
+    if stateless and rng.random() < 0.5:
+        # a load source (and sometimes a daemon probe): reset() must re-prime them
+        prog["source"] = {"rate": rng.choice([2.0, 4.0, 7.0]), "dur": rng.choice([1.0, 3.0, 5.0]),
+                          "probe": rng.random() < 0.4}
+        # a Source keeps ticking for ever, so these programs always get an explicit end_time
+        if prog["end"] is None:
+            prog["end"] = rng.choice([2_000_000_000, 5_000_000_000, 8_000_000_000])
+        # keep the horizon short: the periodic source/probe would otherwise tick for simulated hours
+        big = 3_600_000_000_000
+        for i in prog["initial"]:
+            if i["t"] >= big:
+                i["t"] = 1_000_000_000
+        for h in prog["handlers"].values():
+            for e in h.get("emits", []) + h.get("sched", []) + [x for st in h.get("steps", []) for x in st.get("emits", [])]:
+                if e["dt"] >= big:
+                    e["dt"] = 1_000_000_000
+        if prog["end"] is not None:
+            prog["end"] = min(prog["end"], 8_000_000_000)
     ops = []
     for _ in range(rng.randint(0, 14)):
         r = rng.random()
@@ -85,8 +104,8 @@ def gen(rng, tier):
         elif r < 0.78:
             ops.append({"op": "bp_cond", "mod": rng.randint(2, 6), "one_shot": rng.random() < 0.5})
         elif r < 0.83:
-            ops.append({"op": "bp_metric", "entity": rng.randrange(prog["n_entities"]), "ge": rng.randint(1, 6),
-                        "one_shot": rng.random() < 0.5})
+            ops.append({"op": "bp_metric", "entity": rng.randrange(prog["n_entities"]), "ge": rng.randint(0, 6),
+                        "cmp": rng.choice(["ge", "ge", "le", "eq", "lt", "gt", "ne"]), "one_shot": rng.random() < 0.5})
         elif r < 0.88:
             ops.append({"op": "remove_bp", "which": rng.randrange(4)})
         elif r < 0.90:
@@ -132,7 +151,16 @@ def _build(sc, *, control=False, trace=False):
     pr = ProgramRunner(sc)
     end = sc.get("end")
     rec = InMemoryTraceRecorder() if trace else None
-    sim = Simulation(entities=pr.entities, end_time=Instant(end) if end is not None else None, trace_recorder=rec)
+    sources, probes = [], []
+    src = sc.get("source")
+    if src:
+        from happysimulator import Source
+        sources.append(Source.constant(rate=src["rate"], target=pr.entities[0], event_type="k0", name="load",
+                                       stop_after=src["dur"]))
+        if src.get("probe"):
+            probes.append(Source.constant(rate=3, target=pr.entities[-1], event_type="k0", name="probe"))
+    sim = Simulation(entities=pr.entities, sources=sources or None, probes=probes or None,
+                     end_time=Instant(end) if end is not None else None, trace_recorder=rec)
     pr.sim = sim
     evs = pr.build_initial()
     for e in evs:
@@ -198,7 +226,8 @@ def run_controlled(sc, *, trace=False, tracing=False):
             if k == "bp_cond":
                 return idx % m["mod"] == 0
             if k == "bp_metric":
-                return m["snap"][idx - 1] >= m["ge"]
+                import operator as _op
+                return getattr(_op, m.get("cmp", "ge"))(m["snap"][idx - 1], m["ge"])
             return False
 
         snaps = {e: [] for e in range(sc["n_entities"])}
@@ -315,7 +344,7 @@ def run_controlled(sc, *, trace=False, tracing=False):
                     if op["entity"] >= sc["n_entities"]:
                         raise InvalidScenario("metric entity out of range")
                     m["snap"] = snaps[op["entity"]]
-                    bp = MetricBreakpoint(entity_name=f"E{op['entity']}", attribute="seen_count", operator="ge",
+                    bp = MetricBreakpoint(entity_name=f"E{op['entity']}", attribute="seen_count", operator=op.get("cmp", "ge"),
                                           threshold=op["ge"], one_shot=op["one_shot"])
                 bid = ctl.add_breakpoint(bp)
                 active_bps[bid] = m
@@ -340,6 +369,11 @@ def run_controlled(sc, *, trace=False, tracing=False):
                 stats["took_effect"].add("find")
             elif k == "get_state":
                 st = ctl.get_state()
+                if ctl.is_paused:
+                    prim = len(ctl.find_events(lambda e: not e.daemon))
+                    if st.primary_events_remaining != prim or st.heap_size != len(ctl.find_events(lambda e: True)):
+                        raise Bad("get_state/heap-counts", f"primary_events_remaining={st.primary_events_remaining} heap_size="
+                                                           f"{st.heap_size} but the heap holds {prim} non-daemon events")
                 if st.events_processed != seen["n"] and not hook_removed:
                     raise Bad("get_state/events_processed", f"{st.events_processed} != {seen['n']} deliveries observed")
                 if seen["n"] and not hook_removed and st.current_time.nanoseconds != seen["times"][-1]:
@@ -442,6 +476,7 @@ def run(sc):
         if sig is None and sc.get("stateless"):
             r = _reset_check(sc)
             counters["probe.reset_rerun"] = 1
+            counters["probe.reset_with_source"] = int(bool(sc.get("source")))
             if r:
                 sig, msg = r
     except Bad as b:
@@ -464,6 +499,8 @@ def run(sc):
         "probe.non_one_shot_refired": int("non_one_shot_refired" in te),
         "probe.peek_or_find": int("peek" in te or "find" in te),
     })
+    counters["probe.metric_breakpoint_on_zero"] = int(any(o["op"] == "bp_metric" and o.get("cmp") in ("le", "eq", "lt") and o["ge"] <= 1
+                                                           for o in sc.get("ctl", [])))
     for k in te:
         counters[f"ctl.{k}"] = 1
     h = hashlib.blake2b(repr((base["log"], sc.get("ctl"))).encode(), digest_size=12).hexdigest()
@@ -487,7 +524,15 @@ def _reset_check(sc):
     del tl[:]
     pr.log.clear()
     sim.control.reset()
+    sim.control.pause()
     sim.run()
+    if sim.control.is_paused:
+        st = sim.control.get_state()
+        prim = len(sim.control.find_events(lambda e: not e.daemon))
+        if st.primary_events_remaining != prim:
+            return ("reset/primary-event-count", f"after reset() get_state() reports {st.primary_events_remaining} primary events, "
+                                                 f"the heap holds {prim}")
+        sim.control.resume()
     second = list(tl)
     if first != second:
         n = min(len(first), len(second))
